@@ -4,6 +4,7 @@ import (
 	"encoding/json"
 	"fmt"
 	"regexp"
+	"strings"
 
 	"verifharness/internal/gc"
 	"verifharness/internal/lp"
@@ -19,7 +20,17 @@ type fmtCase struct {
 	instances []string
 }
 
+// further components a case's schema refers to
+var fmtExtra = map[string]map[string]string{"NullEmptyRef": {"NullEmpty": `{"type":"object","nullable":true}`}}
+
 var fmtCases = []fmtCase{
+	// null through pointer-typed nullable members (fixed bde24270)
+	{"NullEmptyRef", `{"type":"object","properties":{"a":{"$ref":"#/components/schemas/NullEmpty"},"r":{"$ref":"#/components/schemas/NullEmpty"}},"required":["r"]}`,
+		[]string{`{"a":null,"r":null}`, `{"a":{},"r":{}}`, `{"r":null}`, `{"r":{}}`}},
+	{"NullRec", `{"type":"object","nullable":true,"properties":{"next":{"$ref":"#/components/schemas/NullRec"},"v":{"type":"string"}}}`,
+		[]string{`{"next":null}`, `{"next":{"next":null,"v":"x"}}`, `{"v":"y"}`, `{"next":{"next":{"next":null}}}`}},
+	{"NullRecAllOf", `{"type":"object","properties":{"next":{"nullable":true,"allOf":[{"$ref":"#/components/schemas/NullRecAllOf"}]},"v":{"type":"string"}}}`,
+		[]string{`{"next":null}`, `{"next":{"next":null,"v":"x"}}`, `{"v":"y"}`}},
 	{"StrInts", `{"type":"object","properties":{
 		"su64":{"type":"string","format":"uint64"},"su":{"type":"string","format":"uint"},"su32":{"type":"string","format":"uint32"},"su16":{"type":"string","format":"uint16"},"su8":{"type":"string","format":"uint8"},
 		"si64":{"type":"string","format":"int64"},"si":{"type":"string","format":"int"},"si32":{"type":"string","format":"int32"},"si16":{"type":"string","format":"int16"},"si8":{"type":"string","format":"int8"}}}`,
@@ -70,6 +81,9 @@ func fmtMatrixDoc() string {
 	paths := map[string]any{}
 	for _, c := range fmtCases {
 		comps[c.name] = json.RawMessage(c.schema)
+		for k, v := range fmtExtra[c.name] {
+			comps[k] = json.RawMessage(v)
+		}
 		paths["/"+c.name] = map[string]any{"post": map[string]any{"operationId": "post" + c.name,
 			"requestBody": map[string]any{"required": true, "content": map[string]any{"application/json": map[string]any{"schema": map[string]any{"$ref": "#/components/schemas/" + c.name}}}},
 			"responses":   map[string]any{"200": map[string]any{"description": "ok"}}}}
@@ -122,6 +136,11 @@ func c04Formats(r *lp.Run, drv *gc.Driver, pkg *gc.Pkg) {
 					r.Known(lp.PropFail{Property: "C04", Class: "K14", What: "a date-time member loses its fractional seconds when encoded", Input: in, Observed: text, Expected: inst})
 					continue
 				}
+				// K17: an absent recursive nullable optional member comes back as null
+				if strings.HasPrefix(c.name, "NullRec") && stdValid([]byte(text)) && jsonEqualRef(dropNullMember(parseJSON(text), "next"), parseJSON(inst)) {
+					r.Known(lp.PropFail{Property: "C04", Class: "K17", What: "an absent recursive nullable optional member is re-encoded as null", Input: in, Observed: text, Expected: inst})
+					continue
+				}
 				fail("decoding and re-encoding a complete valid instance changes the document", text, inst)
 				continue
 			}
@@ -130,4 +149,26 @@ func c04Formats(r *lp.Run, drv *gc.Driver, pkg *gc.Pkg) {
 			}
 		}
 	}
+}
+
+// dropNullMember removes, at every level, a member `name` whose value is null.
+func dropNullMember(v any, name string) any {
+	switch t := v.(type) {
+	case map[string]any:
+		out := map[string]any{}
+		for k, x := range t {
+			if k == name && x == nil {
+				continue
+			}
+			out[k] = dropNullMember(x, name)
+		}
+		return out
+	case []any:
+		out := make([]any, len(t))
+		for i, x := range t {
+			out[i] = dropNullMember(x, name)
+		}
+		return out
+	}
+	return v
 }
